@@ -55,7 +55,7 @@ ASSUMPTIONS = [
 F = Fraction
 GRID = {
     "quick": ([F(0), F(1), F(2)], [F(1), F(2), F(5, 2)]),
-    "thorough": ([F(0), F(1, 2), F(1), F(2)], [F(1), F(3, 2), F(2), F(5, 2), F(3)]),
+    "thorough": ([F(0), F(1, 2), F(1), F(2), F(3)], [F(1), F(3, 2), F(2), F(5, 2), F(3)]),
 }
 MAX_STEPS = 3
 
@@ -234,7 +234,9 @@ def check_plan(ctx, plan, acc):
         ok = False
     else:
         why = _match_forward(res, plan, fl, variable)
-        if why is not None:
+        if why is not None and why[0] == "skip":
+            acc.count("skipped_forward_shape_unclassifiable")
+        elif why is not None:
             acc.violation("%s|%s" % (why[0], lab), "%s; plan %s -> forward %s" % (why[1], tc.plan_json(plan), tc.plan_json(fl)), case)
             acc.outcome(why[0])
             ok = False
@@ -296,10 +298,13 @@ def _match_forward(res, plan, fl, variable):
     # compiled action name -> (original name, "start" | "end"), through the result's own tables
     kinds = {}
     f = res.plan_forward_conversion
-    for orig, comp in f.keywords["start_actions_forward"].items():
-        kinds[comp.name] = (orig.name, "start")
-    for orig, (comp, _t) in f.keywords["end_actions_forward"].items():
-        kinds[comp.name] = (orig.name, "end")
+    try:
+        for orig, comp in f.keywords["start_actions_forward"].items():
+            kinds[comp.name] = (orig.name, "start")
+        for orig, (comp, _t) in f.keywords["end_actions_forward"].items():
+            kinds[comp.name] = (orig.name, "end")
+    except (AttributeError, KeyError, TypeError, ValueError):
+        return ("skip", "compiler tables not available")
     starts = sorted((s, an, tuple(args)) for s, an, args, _d in plan)
     got_starts = sorted((s, kinds[an][0], tuple(args)) for s, an, args, _d in fl if kinds.get(an, ("", ""))[1] == "start")
     if starts != got_starts:
